@@ -276,6 +276,16 @@ func collectionSys() *sys {
 				}
 			}()
 		}},
+		{name: "Pull(mask)", readonly: true, run: func(m *mon, ctx context.Context) {
+			// a masked subscriber next to everyone else: its projections must be made on copies
+			ch := c.Pull(ctx, resource.WithBackpressure(true), resource.WithReadPaths(&lib.T{}, "default_nested_message.a", "default_string"))
+			go func() {
+				for e := range ch {
+					m.reg("Pull(mask) event new value", e.NewValue)
+					m.reg("Pull(mask) event old value", e.OldValue)
+				}
+			}()
+		}},
 		{name: "PullID(a)", readonly: true, run: func(m *mon, ctx context.Context) {
 			ch := c.PullID(ctx, "a", resource.WithBackpressure(true))
 			go func() {
@@ -731,6 +741,7 @@ func builders() map[string]func() *sys {
 	b := map[string]func() *sys{
 		"Value": valueSys, "Collection": collectionSys, "parentpb.Model": parentSys, "metadatapb.Model": metadataSys,
 		"enterleavesensorpb.Model": enterLeaveSys, "electricpb.Model": electricSys, "vendingpb.Model": vendingSys, "publicationpb.Model": publicationSys,
+		"openclosepb.Model(presets)": openCloseSys,
 	}
 	for _, e := range reg.Servers {
 		e := e
